@@ -54,7 +54,8 @@ def gen_plan(rng, tier, index):
         plan['pre_ops'] = []
         plan['result'] = {'routine': rng.pick(['eval_fixed', 'eval_bootstrap_rdm', 'eval_bootstrap', 'crossval', 'bootstrap_crossval', 'eval_dual_bootstrap', 'eval_bootstrap_pattern']),
                           'models': [rng.pick(['fixed', 'weighted', 'select', 'interpolate']) for _ in range(rng.randint(1, 12 if rng.chance(0.06) else 3))],
-                          'method': rng.pick(['cosine', 'corr', 'spearman']), 'N': rng.randint(3, 6)}
+                          'method': rng.pick(['cosine', 'corr', 'spearman']), 'N': rng.randint(3, 6),
+                          'fixed_nb': rng.pick([1, 1, 3])}      # a fixed model built from one RDM or from a stack (its mean predicts)
     fops = []
     for _ in range(rng.randint(2, 8)):
         if rng.chance(0.6) or not fops:
@@ -395,7 +396,7 @@ def _make_result(plan, ctx, data):
     rp = plan['result']
     models = []
     for i, kind in enumerate(rp['models']):
-        nb = {'fixed': 1, 'weighted': 2, 'select': 3, 'interpolate': 3}[kind]
+        nb = {'fixed': rp.get('fixed_nb', 1), 'weighted': 2, 'select': 3, 'interpolate': 3}[kind]
         basis = gen.build_model_rdms(spec, nb, salt='m%d' % i)
         cls = {'fixed': ModelFixed, 'weighted': ModelWeighted, 'select': ModelSelect, 'interpolate': ModelInterpolate}[kind]
         m = cls('model %d µ' % i if i == 1 else 'model_%d' % i, basis)
